@@ -152,7 +152,10 @@ def check_score(case):
     for name, (A, ya) in (("train", (X, y)), ("other", (Z, yz))):
         f = m.predict(A)
         expected = 2.0 * pinball(ya, f, q) / len(ya)
-        s = float(m.score(A, ya))
+        ykind = case.get("score_y", "vector")
+        # the targets handed to score may be a list, a pandas Series or a column (n, 1) - the shape fit documents it accepts
+        ya_in = ya.tolist() if ykind == "list" else (ya.reshape(-1, 1) if ykind == "column" else (__import__("pandas").Series(ya) if ykind == "series" else ya))
+        s = float(m.score(A, ya_in))
         require(abs(s - expected) <= 1e-12 * (1 + abs(expected)), "score:not-twice-mean-pinball",
                 "%s: score=%.12g, 2*mean pinball_q=%.12g, 2*mean pinball_(1-q)=%.12g (q=%r)" % (name, s, expected,
                                                                                           2.0 * pinball(ya, f, 1 - q) / len(ya), q), facts)
@@ -181,7 +184,7 @@ def check_score(case):
                         shift, base_loss, loss, base_score, sc), facts)
         elif loss < base_loss * (1 - 1e-9):
             require(sc <= base_score + 1e-12 * (1 + abs(base_score)), "score:worse-for-better-fit", "", facts)
-    return Outcome(["q=0.5" if q == 0.5 else "q!=0.5", "weighted-mae" if (w is not None and q == 0.5) else "unweighted", "via-copy:" + ("-".join(how) if how else "none")],
+    return Outcome(["q=0.5" if q == 0.5 else "q!=0.5", "weighted-mae" if (w is not None and q == 0.5) else "unweighted", "score-targets:" + case.get("score_y", "vector"), "via-copy:" + ("-".join(how) if how else "none")],
                    not (0.45 <= q <= 0.55) or w is not None)
 
 
@@ -235,6 +238,7 @@ def _cases(draw, tier="quick", weighted=None, for_score=False):
     if not for_score and not weighted and draw(st.integers(0, 3)) == 0:
         case["outliers"] = [[draw(st.integers(0, 59)), draw(st.sampled_from([1e6, -1e6, 1e4]))] for _ in range(draw(st.integers(1, 3)))]
     if for_score:
+        case["score_y"] = draw(st.sampled_from(["vector", "vector", "list", "series", "column"]))
         mz = draw(st.integers(1, 10))
         case["Z"] = [[draw(_g) for _ in range(d)] for _ in range(mz)]
         case["shifts"] = [draw(st.integers(-40, 40)) / 8.0 for _ in range(4)]
